@@ -109,6 +109,11 @@ var Flows = []Flow{
 	}},
 	{"revoke-pillar", func(gn *Gen, n *simnode.Node) *nom.AccountBlock {
 		name := gn.PillarNames[gn.W.R.T.Choose(len(gn.PillarNames))]
+		if name == g.Pillar1Name {
+			// one producing pillar always stays: with no active pillar at all the election of the
+			// pinned tree spins for ever (consensus/election_algorithm.go filterRandom), see DESIGN
+			return nil
+		}
 		from, ok := gn.NameOwner[name]
 		if !ok || gn.W.R.T.Choose(6) == 0 {
 			from = gn.user()
@@ -341,6 +346,9 @@ func init() {
 				case 1:
 					last = gn.do(n, "pillar.Delegate", gn.user(), types.PillarContract, types.ZnnTokenStandard, big.NewInt(0), definition.ABIPillars.PackMethodPanic(definition.DelegateMethodName, name))
 				case 2:
+					if name == g.Pillar1Name {
+						continue
+					}
 					last = gn.do(n, "pillar.Revoke", owner, types.PillarContract, types.ZnnTokenStandard, big.NewInt(0), definition.ABIPillars.PackMethodPanic(definition.RevokeMethodName, name))
 				case 3:
 					last = gn.do(n, "common.CollectReward", owner, types.PillarContract, types.ZnnTokenStandard, big.NewInt(0), definition.ABICommon.PackMethodPanic(definition.CollectRewardMethodName))
